@@ -80,6 +80,7 @@ type sched struct {
 	// preemptAtLoads makes atomic loads (the VM's halt poll, i.e. every VM
 	// instruction boundary) voluntary preemption points as well
 	preemptAtLoads bool
+	preemptBeforeChanOps bool // a preemption point also right before every channel operation
 	race           *raceState
 	rwReaders      map[*value]int
 }
@@ -451,6 +452,11 @@ func (m *Machine) selectCases(cases []selCase, blocking bool) (int, value, bool)
 	}
 	s := m.sch()
 	cur := s.cur
+	if s.preemptBeforeChanOps && len(s.tasks) > 1 {
+		// another task may run between whatever this task observed before (e.g.
+		// len(ch)) and the operation itself
+		m.yieldKind(true)
+	}
 	for {
 		var ready []int
 		for i, c := range cases {
